@@ -122,6 +122,17 @@ def build(tier="quick", seed=0):
                 if p.outcome == "return":
                     b.add(Obligation(oid=f"{fn.key}::ensures:returns_only_for_valid_masses@path{i}", fn=fn.key,
                                      clause="returns only when host_mass > 0 and target_mass >= 0", goal=ok_masses, hyps=[sp.Gt(x, 0), sp.Gt(G, 0)] + p.hyps))
+    # "scalar or array": every interpreted helper gives, for an array argument, element by element the value of the scalar call
+    MODP = "TidalPy.utilities.conversions.conversions"
+    for name in SINGLE:
+        prm = Fn(FP, name).params[0]
+        elementwise(b, FP, name, {prm: x}, [prm], pre, globals_env=genv_py())
+        b.replayer(f"{FP}::{name}::ensures:array_is_elementwise*", make_elementwise_replayer(MODP, name, {}, {prm: [3.0e-9, 2.5, 7.0e11]}))
+    b.replayer(f"{FP}::orbital_motion2semi_a::ensures:array_is_elementwise*", make_elementwise_replayer(MODP, "orbital_motion2semi_a", dict(host_mass=1.9e27, target_mass=8.9e22), dict(orbital_motion=[3.0e-9, 4.1e-5, 2.0])))
+    b.replayer(f"{FP}::semi_a2orbital_motion::ensures:array_is_elementwise*", make_elementwise_replayer(MODP, "semi_a2orbital_motion", dict(host_mass=1.9e27, target_mass=8.9e22), dict(semi_major_axis=[2.0e6, 4.2e8, 3.0e13])))
+    pk = [sp.Gt(M, 0), sp.Ge(m, 0), sp.Gt(G, 0)]
+    elementwise(b, FP, "orbital_motion2semi_a", dict(orbital_motion=n, host_mass=M, target_mass=m), ["orbital_motion"], pk + [sp.Gt(n, 0)], globals_env=genv_py())
+    elementwise(b, FP, "semi_a2orbital_motion", dict(semi_major_axis=a_, host_mass=M, target_mass=m), ["semi_major_axis"], pk + [sp.Gt(a_, 0)], globals_env=genv_py())
     constants(b)
     orbit_invariant(b)
     b.replayer(f"{FO}::OrbitBase.*", _replay_orbit)
